@@ -1,5 +1,6 @@
 (* C07 - PAM protection edits are applied and annotated exactly as requested. *)
-From VV Require Import Model.Base Model.Pattern Model.Gpo Model.Views Spec.LiftSpec Proofs.ViewsProofs Proofs.PamSeqProofs Proofs.ViewsSgrnaProofs.
+From VV Require Import Model.Base Model.Pattern Model.Gpo Model.Views Spec.LiftSpec Proofs.ViewsProofs Proofs.PamSeqProofs Proofs.ViewsSgrnaProofs
+  Model.CodonTable Model.Transcript Model.PpeSeq Model.PamAnnot Proofs.AnnotWalkProofs Proofs.PpeSeqProofs Proofs.PamAnnotProofs.
 
 (* pam_seq carries the ALT base at the positions of the applied edits (those that get_ppe_seq hands to apply_variants:
    listed sgRNA, inside the targeton, sorted by position) and the background base everywhere else *)
@@ -66,3 +67,46 @@ Print Assumptions C07_sql_range_filter_is_spec.
 Print Assumptions C07_slots_contiguous.
 Print Assumptions C07_sgrna_ids_exact.
 Print Assumptions C07_one_edit_per_codon_slot.
+
+(* ---- which edits are applied: get_ppe_seq over the whole context ---- *)
+
+(* of the single-nucleotide edits of the targeton's guides (distinct positions: duplicates are refused before), exactly those
+   inside the targeton are applied to the context sequence; at every other position of the context - in particular at the
+   position of an edit of one of those guides outside the targeton - the sequence is unchanged, so a codon completed from
+   outside the targeton is read from the unedited template *)
+Theorem C07_edits_applied_exactly_inside_targeton : forall start ctx tr ppes,
+  (forall v, In v ppes -> is_snv v) -> NoDup (map v_pos ppes) ->
+  start <= rs tr -> re tr <= start + zlen ctx - 1 ->
+  exists s, ppe_seq start ctx tr ppes = Ok s /\ zlen s = zlen ctx /\
+    forall p, start <= p < start + zlen ctx ->
+      znth (p - start) s = match (if in_range p tr then edit_at ppes p else None) with
+                           | Some x => Some x | None => znth (p - start) ctx end.
+Proof. exact ppe_seq_exact. Qed.
+
+(* ---- pam_mut_annot (Targeton.get_ppe_mut_types), without background variants ---- *)
+
+(* the codon of an applied edit is read at the same three positions of the coding walk - completed across exon junctions,
+   C04_ext_positions_are_codon_walk - in the reference and in the PAM-protected sequence; the edited position is one of
+   them; the annotation is the change between the two translations *)
+Theorem C07_pam_annot_is_walk_translation : forall tb t q_ref q_alt p m,
+  ppe_mut_type tb t t q_ref q_alt p p = Ok m -> covers q_ref t -> covers q_alt t ->
+  exists e r cr ca a_ref a_alt,
+    exon_at_pos t p = Some e /\ exon_get_codon_at (t_strand t) e p = Ok (Some r) /\
+    get_cds_seq_exon t q_ref e r = Ok cr /\ get_cds_seq_exon t q_alt e r = Ok ca /\
+    let W := walk_segment cr r in
+    zlen W = 3 /\ In p W /\
+    seq_get_at q_ref W = Ok (c_ext cr) /\ seq_get_at q_alt W = Ok (c_ext ca) /\
+    translate tb (c_ext cr) = Ok a_ref /\ translate tb (c_ext ca) = Ok a_alt /\
+    m = aa_change a_ref a_alt.
+Proof. exact pam_annot_is_walk_translation. Qed.
+
+Example C07_pam_annot_example :
+  ppe_mut_types true ex_tb ex_t ex_t ex_ref ex_alt1 [(21, 21)] = Ok [Syn] /\
+  ppe_mut_types true ex_tb ex_t ex_t ex_ref ex_alt2 [(20, 20)] = Ok [Mis] /\
+  ppe_mut_types false ex_tb ex_t ex_t ex_ref ex_alt2 [(20, 20)] = Ok [] /\
+  covers ex_ref ex_t.
+Proof. exact pam_annot_example. Qed.
+
+Print Assumptions C07_edits_applied_exactly_inside_targeton.
+Print Assumptions C07_pam_annot_is_walk_translation.
+Print Assumptions C07_pam_annot_example.
